@@ -47,7 +47,7 @@ def gen_var(rng):
         elif kind == 'zscore':
             chain.append('zscore' if dist == 'N' else f'zscore({rng.choice([0.0, 1.5])}, {rng.choice([0.5, 2.0])})')
         else:
-            chain.append(rng.choice(['log', 'log10', 'log(2)', 'log(10, 2.0)', 'log(offset=0.5)']))
+            chain.append(rng.choice(['log', 'log10', 'log(2)', 'log(10, 2.0)', 'log(offset=0.5)', 'log(10, 1)', 'log(2, 1.0)', 'log(offset=1)']))
     spec['norm'] = chain
     return spec
 
